@@ -15,7 +15,7 @@ from ..base import Result
 
 ID = "C05"
 RULE = ("Random op sequences (fill-drain / Dijkstra-like / random mixes; capacities 1..64 quick, ..200 thorough; "
-        "both policies; cost alphabets {0,1,2}, small ints, Gaussian floats, +-FLOAT_MAX, multiples of 1e-21, multiples of 1e300) plus a bounded exhaustive "
+        "both policies; cost alphabets {0,1,2}, small ints, Gaussian floats, +-FLOAT_MAX, multiples of 1e-21, multiples of 1e300, Python ints beyond 2**53; 1 in 5 heaps gets its policy through the public setter) plus a bounded exhaustive "
         "sweep of all legal sequences over capacity<=3, costs {0,1,2}, plus live traffic: real supervised / semi / KNN / unsupervised fits with an "
         "in-situ oracle on every Heap.remove (removed element has the extremal cost among all queued). Non-trivial: capacity>=3, >=2 successful "
         "removes and >=1 strictly improving update of a queued element; distinct = distinct op-sequence hash.")
@@ -29,7 +29,7 @@ BUDGET = {
     "thorough": {"cases": 300000, "seconds": 900, "shards": 16},
 }
 REQUIRED_OBS = ["remove_ok", "update_queued_improve", "insert_full_refused", "remove_empty_refused",
-                "update_white_inserts", "tie_at_remove", "drained_heaps", "exhaustive_sequences", "live_removes", "live_decrease_keys"]
+                "update_white_inserts", "tie_at_remove", "drained_heaps", "policy_via_setter", "exhaustive_sequences", "live_removes", "live_decrease_keys"]
 MIN_NONTRIVIAL = 200
 
 FLOAT_MAX = sys.float_info.max
@@ -46,12 +46,17 @@ def _consts():
 
 
 # --------------------------------------------------------------------------- executor + oracle
-def run_ops(size, policy, ops, res=None, drain=True):
+def run_ops(size, policy, ops, res=None, drain=True, via_setter=False):
     """Run `ops` on the real heap, judging each observation against the model.  Returns Result."""
     res = res or Result()
     c = _consts()
     Heap = _heap_cls()
-    h = Heap(size=size, policy=policy)
+    if via_setter:                      # the policy chosen through the public setter on a default-constructed heap
+        h = Heap(size=size)
+        h.policy = policy
+        res.see("policy_via_setter")
+    else:
+        h = Heap(size=size, policy=policy)
     better = (lambda a, b: a < b) if policy == "min" else (lambda a, b: a > b)
     queued = {}      # id -> cost   (the model)
     removed = []     # ids returned so far
@@ -170,7 +175,9 @@ def run_ops(size, policy, ops, res=None, drain=True):
 
 # --------------------------------------------------------------------------- generation
 def _cost_source(rng, policy):
-    kind = rng.integers(0, 7)
+    kind = rng.integers(0, 8)
+    if kind == 7:      # integer costs beyond 2**53: exact as Python ints, not as floats
+        return lambda: int(2 ** 53 + int(rng.integers(0, 9)))
     if kind == 5:      # costs far below any absolute epsilon: ordering must still be exact
         return lambda: float(rng.integers(0, 6)) * 1e-21
     if kind == 6:      # huge costs
@@ -203,6 +210,8 @@ def generate(rng, tier, idx):
         r = rng.random()
         if r < 0.2:
             return cur
+        if isinstance(cur, int):            # integer costs stay exact integers
+            return cur - int(sign) * int(rng.integers(1, 4))
         step = abs(draw()) + (1.0 if rng.random() < 0.5 else 0.0)
         v = cur - sign * step
         if not np.isfinite(v):
@@ -258,13 +267,15 @@ def generate(rng, tier, idx):
                 ops.append(["rem"])
             for p in cands:
                 del queued[p]
-    return {"size": size, "policy": policy, "ops": ops}
+    return {"size": size, "policy": policy, "ops": ops, "via_setter": bool(rng.random() < 0.2)}
 
 
 def check(case):
     if case.get("live"):
         return _live(case)
-    return run_ops(int(case["size"]), case["policy"], case["ops"])
+    if "exhaustive_sweep" in case:
+        return Result()
+    return run_ops(int(case["size"]), case["policy"], case["ops"], via_setter=bool(case.get("via_setter")))
 
 
 def _live(case):
